@@ -300,3 +300,45 @@ func (e *Env) foreignGlobal(x *Expr) (Bound, bool) {
 	e.vc.regComp(comp, e.vc.sortOf(pt.Elem()))
 	return Bound{V: Val{e.vc.get(e.state, comp), e.vc.sortOf(pt.Elem())}, T: pt.Elem()}, true
 }
+
+// altBinding: the SSA builder sometimes records the declaration "x := T{}" of a map or slice variable with a nil
+// constant although every use refers to the constructed value.  When the only dominating binding of a name is
+// such a nil constant, a value that the same variable is bound to elsewhere and whose definition strictly
+// dominates the current block is the variable's value here.
+func (f *Frame) altBinding(name string) ssa.Value {
+	if f.curBlock == nil {
+		return nil
+	}
+	var best ssa.Value
+	bestDepth := -1
+	for _, b := range f.fn.Blocks {
+		for _, in := range b.Instrs {
+			dr, ok := in.(*ssa.DebugRef)
+			if !ok || dr.IsAddr || dr.Object() == nil || dr.Object().Name() != name {
+				continue
+			}
+			def, ok := dr.X.(ssa.Instruction)
+			if !ok {
+				continue
+			}
+			if _, isPhi := dr.X.(*ssa.Phi); isPhi {
+				continue
+			}
+			if _, computed := f.vals[dr.X]; !computed {
+				continue
+			}
+			db := def.Block()
+			if db == nil || db == f.curBlock || !db.Dominates(f.curBlock) {
+				continue
+			}
+			d := 0
+			for x := db; x != nil; x = x.Idom() {
+				d++
+			}
+			if d > bestDepth {
+				bestDepth, best = d, dr.X
+			}
+		}
+	}
+	return best
+}
